@@ -58,6 +58,7 @@ from bitcoinutils.utils import (
     h_to_b,
     b_to_i,
     i_to_b32,
+    i_to_b,
     tweak_taproot_pubkey,
     tweak_taproot_privkey,
 )
@@ -405,17 +406,17 @@ class PrivateKey:
 
         # update S -- Low S standardness rule
 
-        # if length is 33 bytes then it contains a sign and thus is high S
-        if length_s == 33:
+        # if S is above half the group order then it is high S
+        if S_as_bigint > Secp256k1Params._order // 2:
             new_S_as_bigint = Secp256k1Params._order - S_as_bigint
-            # convert bigint to bytes
-            # new_S = h_to_b(i_to_h64(new_S_as_bigint))
-            new_S = i_to_b32(new_S_as_bigint)
-            # new value should be 32 bytes
-            assert len(new_S) == 0x20
-            # reduce appropriate lengths
-            length_s -= 1
-            length_total -= 1
+            # convert bigint to a minimal DER integer: no leading zero bytes
+            # unless needed to keep the number positive
+            new_S = i_to_b(new_S_as_bigint)
+            if new_S[0] & 0x80:
+                new_S = b"\x00" + new_S
+            # adjust appropriate lengths
+            length_total -= length_s - len(new_S)
+            length_s = len(new_S)
         else:
             new_S = S
 
